@@ -17,6 +17,8 @@ pub mod c15;
 pub mod c16;
 pub mod c10;
 pub mod c18;
+pub mod c07;
+pub mod c06;
 
 pub struct Tier {
     pub thorough: bool,
@@ -63,14 +65,15 @@ macro_rules! run_h {
     }};
 }
 
-pub type Job<'a> = (crate::eng::Cfg, Box<dyn Fn() + Sync + Send + 'a>, Box<dyn Fn() + Sync + Send + 'a>);
+pub type Job<'a> = (crate::eng::Cfg, Box<dyn Fn(bool) + Sync + Send + 'a>);
 
-/// queue a harness for `run_jobs` (many small harnesses run side by side, one solver thread each)
+/// queue a harness for `run_jobs` (many small harnesses run side by side, one solver thread each);
+/// the closure runs the scenario natively (true) or symbolically (false)
 #[macro_export]
 macro_rules! job {
     ($jobs:expr, $cfg:expr, $f:ident $(, $arg:expr)*) => {{
         let cfg = $cfg;
-        $jobs.push((cfg, Box::new(move || $f::<$crate::sym::Sym>($($arg.clone()),*)) as Box<dyn Fn() + Sync + Send>, Box::new(move || $f::<f64>($($arg.clone()),*)) as Box<dyn Fn() + Sync + Send>));
+        $jobs.push((cfg, Box::new(move |native: bool| if native { $f::<f64>($($arg.clone()),*) } else { $f::<$crate::sym::Sym>($($arg.clone()),*) }) as Box<dyn Fn(bool) + Sync + Send>));
     }};
 }
 
@@ -78,9 +81,9 @@ pub fn run_jobs(pr: &mut PropRun, jobs: Vec<Job>, threads: usize) {
     use std::sync::atomic::{AtomicUsize, Ordering};
     use std::sync::Mutex;
     if let Some(rt) = pr.replay.clone() {
-        for (cfg, _s, n) in jobs.iter() {
+        for (cfg, f) in jobs.iter() {
             if cfg.name == rt.0 {
-                pr.replay_out = Some(crate::eng::run_native(&rt.1, &rt.2, &**n));
+                pr.replay_out = Some(crate::eng::run_native(&rt.1, &rt.2, &|| f(true)));
             }
         }
         return;
@@ -96,10 +99,10 @@ pub fn run_jobs(pr: &mut PropRun, jobs: Vec<Job>, threads: usize) {
                 if i >= jobs.len() {
                     break;
                 }
-                let (cfg, s, n) = &jobs[i];
+                let (cfg, f) = &jobs[i];
                 let mut c = cfg.clone();
                 c.threads = 1;
-                let rep = crate::eng::explore(&c, &**s, &**n);
+                let rep = crate::eng::explore(&c, &|| f(false), &|| f(true));
                 out.lock().unwrap().push((i, rep));
             });
         }
@@ -130,6 +133,8 @@ pub fn run_property(id: &str, t: &Tier, replay: Option<(String, std::collections
         "C16" => c16::run(&mut pr, t),
         "C10" => c10::run(&mut pr, t),
         "C18" => c18::run(&mut pr, t),
+        "C07" => c07::run(&mut pr, t),
+        "C06" => c06::run(&mut pr, t),
         _ => return None,
     }
     let _ = explore;
